@@ -22,14 +22,16 @@ Findings on the unfixed tree (do not weaken the contracts):
  * same fix-up, documented negative-divisor case x >= 0, y < 0: `r -= y` must be `r += y`
    (C16.shifted.neg_divisor.quot/.rem fail, and `r -= y` can overflow); not reachable from fpdec itself,
    which always passes a positive divisor (also in fixes/D5.diff).
- * C20-class site (D-run, overflow diagnostics in round_quot `quot + 1`): when the floor quotient is
-   exactly i128::MAX with a non-zero remainder and the mode rounds up, the rounded callers overflow
-   (dev: panic "attempt to add with overflow"; release: Some(i128::MIN)) instead of returning None,
-   e.g. i128_mul_div_ten_pow_rounded(2^64+1, 5*(2^64-1), 1, RoundCeiling).  This is what the
-   `*.no_overflow_in_rounding` ok-clauses express.
+ * D10 (fix: fixes/D10.diff): the rounded callers handed every floor quotient to round_quot, whose
+   `quot + 1` overflows when the floor quotient is exactly i128::MAX with a non-zero remainder and the mode
+   rounds up (dev: panic "attempt to add with overflow", also inside checked_div; release: i128::MIN), e.g.
+   Decimal(119098828422328462212181112601118874009, 0).div_rounded(Decimal(7, 0), 1) under RoundUp.  Before
+   the fix this shows as "precondition not satisfied" (round_quot: rem > 0 ==> quot < i128::MAX) in both
+   rounded callers plus their none_iff clause; after it `checked_round_quot` is verified here with its body.
 """
 from vgen import Unit, Contract as C, Loop
 import core_kernel
+import runner
 
 X256 = 'u256(*old(xh) as int, *old(xl) as int)'
 Q256 = 'u256(*final(xh) as int, *final(xl) as int)'
@@ -66,16 +68,6 @@ def _floor_posts(tag, num, den, neg_divisor=False):
          'r.is_none() ==> abs_int(floor_quot(%s, %s as int)) > i128::MAX' % (num, den)),
     ]
     return posts
-
-
-def round_quot_contract():
-    """round_quot with the exact no-overflow condition (the kernel contract of core_kernel demands the
-    mode-independent `rem > 0 ==> quot < i128::MAX`, which the wide callers cannot promise)."""
-    c = core_kernel.contracts()['rounding::round_quot']
-    c.pre = ['0 < divisor <= i128::MAX as u128', 'rem < divisor']
-    c.ok = [('round_quot.result_fits',
-             'in_i128(round_div(quot * (divisor as int) + rem as int, divisor as int, eff_mode(mode)))')]
-    return c
 
 
 def contracts():
@@ -136,16 +128,22 @@ def contracts():
         post=_floor_posts('i256', N_MUL, 'y'),
         entry='lemma_b128(); lemma_abs_mul(x1 as int, x2 as int); lemma_floor_from_abs(%s, y as int);' % N_MUL)
     # ---- rounded callers (rounding.rs)
+    vq = 'round_div(quot * (divisor as int) + rem as int, divisor as int, eff_mode(mode))'
+    d['rounding::checked_round_quot'] = C(
+        pre=['0 < divisor <= i128::MAX as u128', 'rem < divisor'],
+        post=[('checked_round_quot.value', 'r.is_some() ==> r.unwrap() == %s' % vq),
+              ('checked_round_quot.none_iff', 'r.is_none() <==> !in_i128(%s)' % vq)],
+        entry=('lemma_floor_form(quot as int, rem as int, divisor as int); '
+               'if rem > 0 { lemma_round_at_max(rem as int, divisor as int, eff_mode(mode)); }'))
     nsh = '((if divisor < 0 { -(divident as int) } else { divident as int }) * pow10(p as nat))'
     dsh = 'abs_int(divisor as int)'
     rsh = 'round_div(%s, %s, eff_mode(mode))' % (nsh, dsh)
     d['rounding::i128_shifted_div_rounded'] = C(
         pre=['divisor != 0', 'divident > i128::MIN', 'divisor > i128::MIN'],
-        ok=[('shifted_div_rounded.p_in_range', 'p <= 38'),
-            ('shifted_div_rounded.no_overflow_in_rounding',
-             'abs_int(%s) / %s <= i128::MAX ==> in_i128(%s)' % (nsh, dsh, rsh))],
+        ok=[('shifted_div_rounded.p_in_range', 'p <= 38')],
         post=[('C16.shifted_div_rounded.value', 'r.is_some() ==> r.unwrap() == %s' % rsh),
-              ('C16.shifted_div_rounded.none_iff', 'r.is_none() <==> abs_int(%s) / %s > i128::MAX' % (nsh, dsh)),
+              ('C16.shifted_div_rounded.none_iff',
+               'r.is_none() <==> (abs_int(%s) / %s > i128::MAX || !in_i128(%s))' % (nsh, dsh, rsh)),
               ('C16.shifted_div_rounded.none_only_if_unrepresentable', 'r.is_none() ==> abs_int(%s) > i128::MAX' % rsh)],
         entry=('lemma_abs_mul(divident as int, pow10(p as nat)); lemma_abs_mul(-(divident as int), pow10(p as nat)); '
                'lemma_floor_div_props(%s, %s); '
@@ -155,11 +153,10 @@ def contracts():
     dm = 'pow10(p as nat)'
     rm = 'round_div(%s, %s, eff_mode(mode))' % (nm, dm)
     d['rounding::i128_mul_div_ten_pow_rounded'] = C(
-        ok=[('mul_div_ten_pow_rounded.p_in_range', 'p <= 38'),
-            ('mul_div_ten_pow_rounded.no_overflow_in_rounding',
-             'abs_int(%s) / %s <= i128::MAX ==> in_i128(%s)' % (nm, dm, rm))],
+        ok=[('mul_div_ten_pow_rounded.p_in_range', 'p <= 38')],
         post=[('C16.mul_div_ten_pow_rounded.value', 'r.is_some() ==> r.unwrap() == %s' % rm),
-              ('C16.mul_div_ten_pow_rounded.none_iff', 'r.is_none() <==> abs_int(%s) / %s > i128::MAX' % (nm, dm)),
+              ('C16.mul_div_ten_pow_rounded.none_iff',
+               'r.is_none() <==> (abs_int(%s) / %s > i128::MAX || !in_i128(%s))' % (nm, dm, rm)),
               ('C16.mul_div_ten_pow_rounded.none_only_if_unrepresentable', 'r.is_none() ==> abs_int(%s) > i128::MAX' % rm)],
         entry=('lemma_pow10_pos(p as nat); lemma_pow10_values(); if p <= 38 { lemma_pow10_mono(p as nat, 38); '
                'lemma_floor_div_props(%s, %s); '
@@ -168,6 +165,8 @@ def contracts():
     return d
 
 
+# present only once fixes/D10.diff is in the tree
+CRQ = 'rounding::checked_round_quot'
 INTERNAL = ['u128_msb', 'u128_hi', 'u128_lo', 'u128_mul_u128', 'u256_idiv_u64', 'u256_idiv_u128_special',
             'u256_idiv_u128']
 PUBLIC = ['i128_shifted_div_mod_floor', 'i256_div_mod_floor',
@@ -184,7 +183,10 @@ def add_wide_items(u, verify=False, internal=None):
     cs = contracts()
     if internal is None:
         internal = verify
-    for k in (INTERNAL if internal else []) + PUBLIC:
+    keys = list(INTERNAL) if internal else []
+    if internal and CRQ in runner.load_sources(('core',))['core']:
+        keys.append(CRQ)
+    for k in keys + PUBLIC:
         c = cs[k]
         if not verify:
             c.stub = True
@@ -201,7 +203,8 @@ def build():
     tp = cs['powers_of_ten::ten_pow']
     tp.stub = True
     u.fn('core', 'powers_of_ten::ten_pow', tp)
-    # round_quot is re-verified here (real body) under the exact no-overflow condition
-    u.fn('core', 'rounding::round_quot', round_quot_contract())
+    rq = cs['rounding::round_quot']     # body verified in its home unit core_kernel
+    rq.stub = True
+    u.fn('core', 'rounding::round_quot', rq)
     add_wide_items(u, verify=True)
     return u
